@@ -257,7 +257,12 @@ class AClassSource(SourceBase):
         first = not (self.closed or self.exhausted or self.failed)
         self.ctx.ev("close", self.name)
         if first and self.csusp:
-            await self.ctx.suspend((self.name, "cleanup"))
+            try:
+                await self.ctx.suspend((self.name, "cleanup"))
+            except BaseException:  # noqa: B902
+                # the cleanup itself was cancelled: whoever closed this source has done what could be done
+                self.closed = True
+                raise
         if self.cfault_open and self.close_fault is not None and not self.close_raised:
             self.close_raised = True
             self.ctx.ev("close-fault", self.name)
